@@ -146,8 +146,8 @@ impl std::error::Error for ScriptError {}
 pub struct EntityCfg {
     pub len: u64,
     pub etag: Option<Vec<u8>>,
-    /// nanoseconds since the epoch
-    pub mtime_ns: Option<u64>,
+    /// nanoseconds since the epoch (beyond 64 bits for times after the year 2554)
+    pub mtime_ns: Option<u128>,
     pub hdrs: Vec<(String, Vec<u8>)>,
     /// recipe for the k-th get_range call; calls beyond the list get `default_recipe`
     pub recipes: Vec<Vec<Op>>,
@@ -218,6 +218,6 @@ impl http_serve::Entity for ScriptedEntity {
     fn last_modified(&self) -> Option<SystemTime> {
         self.cfg
             .mtime_ns
-            .map(|ns| SystemTime::UNIX_EPOCH + Duration::new(ns / 1_000_000_000, (ns % 1_000_000_000) as u32))
+            .map(|ns| SystemTime::UNIX_EPOCH + Duration::new((ns / 1_000_000_000) as u64, (ns % 1_000_000_000) as u32))
     }
 }
